@@ -127,3 +127,28 @@ Section Pair.
     - intros [H | [m [[<- | Hm] Hx]]]; [tauto | tauto | right; exists m; tauto].
   Qed.
 End Pair.
+
+(** the same as [inspect_acc] for any state on which lists of errors act *)
+Section AccumulateGen.
+  Variables (St E : Type).
+  Variable act : St -> list E -> St.
+  Hypothesis act_nil : forall s, act s [] = s.
+  Hypothesis act_app : forall s a b, act (act s a) b = act s (a ++ b).
+  Variable f : node -> list E.
+  Variable g : node -> bool.
+  Variable enter : St -> node -> St * bool.
+  Hypothesis enter_eq : forall st n, enter st n = (act st (f n), g n).
+
+  Lemma inspect_acc_gen t st : inspect enter (fun s => s) t st = act st (flat_map f (vnodes g t)).
+  Proof.
+    revert st. induction t as [n cs IH] using tree_ind'. intros st.
+    assert (forall acc, fold_left (fun a c => inspect enter (fun s => s) c a) cs acc
+                        = act acc (flat_map f (flat_map (vnodes g) cs))) as Hfold.
+    { induction IH as [|c cs' Hc _ IHcs]; intros acc; simpl.
+      - rewrite act_nil. reflexivity.
+      - rewrite Hc, IHcs, act_app, flat_map_app. reflexivity. }
+    simpl. rewrite enter_eq. destruct (g n).
+    - rewrite Hfold, act_app. reflexivity.
+    - simpl. rewrite app_nil_r. reflexivity.
+  Qed.
+End AccumulateGen.
